@@ -54,6 +54,8 @@ Definition V (s : string) : node := VirtN (unhex s).
 Definition P := PairN.
 (* zero node of height d, as the library's zero_node(d) *)
 Definition Zn (d : nat) : node := zero_node HS d.
+(* lazily loaded (virtual) leaves; the correspondence runs them against a source without children (nosrc) *)
+Definition VZn (d : nat) : node := VirtN (zero_hash HS d).
 
 Definition nosrc : bytes -> option (bytes * bytes) := fun _ => None.
 (* a root-keyed table as a source *)
